@@ -446,14 +446,63 @@ package core
 //@   invariant len(prefix) >= 1
 //@ extern strings.Trim(s, cutset)
 //@   attr pure deterministic nopanic
+// Path parameters (C01: no index leaves its string; C03: empty and duplicated parameters are rejected; similar paths:
+// the parameter registered for a path prefix is never replaced by a different one).
+//@ extern strings.Split(s, sep)
+//@   attr deterministic nopanic
+//@   ensures fresh(result.arr) && 0 <= result.off
+//@ extern strings.Join(elems, sep)
+//@   attr pure deterministic nopanic
+//@ pred noEmpty(l []string) := 0 <= l.off && forallp(j, at(l, j), imp(l.off <= j && j < l.off + len(l), at(l, j) != ""))
+//@ func removeEmptyStrings(s)
+//@   property C01
+//@   modifies nothing
+//@   ensures[C01] noEmpty(result)
+//@ func removeEmptyStrings loop 1
+//@   invariant noEmpty(r) && fresh(r.arr)
+//@ func splitPath(path)
+//@   property C01
+//@   modifies nothing
+//@   ensures[C01] noEmpty(result)
+//@ func pathParameters(path)
+//@   property C01
+//@   modifies nothing
+//@   ensures 0 <= result.off
+//@ func pathParameters loop 1
+//@   invariant fresh(pp.arr) && 0 <= pp.off && noEmpty(s)
+//@ func hasEmptyPathParameters(p)
+//@   property C03
+//@   requires 0 <= p.off
+//@   modifies nothing
+//@   ensures[C03,@empty-path-parameter] imp(!result, forallp(j, at(p, j), imp(p.off <= j && j < p.off + len(p), at(p, j).parameter != "")))
+//@ func hasEmptyPathParameters loop 1
+//@   invariant forallp(j, at(p, j), imp(p.off <= j && j < p.off + rangeindex + 1, at(p, j).parameter != ""))
+//@ func duplicatedPathParameters(p)
+//@   property C03
+//@   requires 0 <= p.off && forallp(j, at(p, j), imp(p.off <= j && j < p.off + len(p), at(p, j).parameter != ""))
+//@   modifies nothing
+//@   ensures[C03,@duplicated-path-parameter] imp(result == "", forallp(i, j, at(p, i), at(p, j), imp(p.off <= i && i < j && j < p.off + len(p) && at(p, j).parameter != "",
+//@       at(p, i).parameter != at(p, j).parameter)))
+//@ func duplicatedPathParameters loop 1
+//@   invariant uniq != nil && forallp(j, at(p, j), imp(p.off <= j && j < p.off + rangeindex + 1, has(uniq, at(p, j).parameter)))
+//@   invariant forall(k, string, imp(has(uniq, k), exists(j, p.off <= j && j < p.off + rangeindex + 1 && at(p, j).parameter == k)))
+//@   invariant forallp(i, j, at(p, i), at(p, j), imp(p.off <= i && i < j && j < p.off + rangeindex + 1, at(p, i).parameter != at(p, j).parameter))
 //@ func PathParameters(path)
-//@   attr trusted
+//@   property C03
+//@   modifies nothing
+//@   ensures[C03,@empty-path-parameter] imp(result1 == nil, forallp(j, at(result0, j), imp(result0.off <= j && j < result0.off + len(result0), at(result0, j).parameter != "")))
+//@   ensures[C03,@duplicated-path-parameter] imp(result1 == nil, forallp(i, j, at(result0, i), at(result0, j), imp(result0.off <= i && i < j && j < result0.off + len(result0),
+//@       at(result0, i).parameter != at(result0, j).parameter)))
+//@ func removeLastSegment(p)
+//@   property C01
 //@   modifies nothing
 //@ func (*JApiCore).checkSimilarPaths(core, pp)
-//@   attr trusted
-//@   modifies anything
-//@   keeps directive.Directive, fs.File, JApiCore
-//@   ensures core.catalog.gFailed == old(core.catalog.gFailed)
+//@   property C03,C01
+//@   requires core != nil && core.similarPaths != nil && 0 <= pp.off
+//@   modifies core.similarPaths[:]
+//@   ensures[C03,@similar-paths] forall(k, string, imp(old(has(core.similarPaths, k)), has(core.similarPaths, k) && core.similarPaths[k] == old(core.similarPaths[k])))
+//@ func (*JApiCore).checkSimilarPaths loop 1
+//@   invariant forall(k, string, imp(old(has(core.similarPaths, k)), has(core.similarPaths, k) && core.similarPaths[k] == old(core.similarPaths[k])))
 //@ func (*JApiCore).addOperationID(core, d)
 //@   property C03,C01
 //@   requires handlerPre(core, d) && parentOK(d) && d.type_ == directive.OperationID && core.uniqOperationID != nil
